@@ -11,7 +11,8 @@ FUNCTIONS = ['uxarray.grid.geometry._pad_closed_face_nodes',
     'uxarray.grid.geometry._grid_to_polygon_geodataframe@exclude,geopandas',
     'uxarray.grid.geometry._grid_to_polygon_geodataframe@exclude,spatialpandas',
     'uxarray.grid.grid.Grid.to_geodataframe',
-    'uxarray.grid.geometry._build_antimeridian_face_indices']
+    'uxarray.grid.geometry._build_antimeridian_face_indices',
+    'uxarray.grid.grid.Grid.__init__@class_state']
 STANDINS = ["geometry_export", "gdf_frames", "cache_sequences"]
 ASSUMPTIONS = []
 EXPLANATION = ""
